@@ -24,11 +24,15 @@ inductive Kind where
   | badStatus   -- expected type, ServiceResult Bad: handler runs, status is returned
   | fault       -- ServiceFault (Bad)
   | wrongType   -- another response type, Good: safeAssign fails
+  | notResponse -- a decodable service message that is no response at all (e.g. a request echoed back):
+                -- `msg.Response()` is nil, safeAssign(nil, &res) fails
   deriving Repr, DecidableEq
 
 /-- built-in type classes the getters distinguish -/
 inductive Tid where
   | null | byte | sbyte | int32 | qname | ltext | string | double
+  | extobj        -- ExtensionObject(s) with a decoded body
+  | extobjNoBody  -- ExtensionObject(s) without a body (`eo.Value == nil`)
   deriving Repr, DecidableEq
 
 /-- the `Value` of `Results[0]` -/
@@ -64,6 +68,8 @@ structure Shape where
   subKnown  : Bool
   /-- Publish: the notification data of the message -/
   notifs    : List Notif
+  /-- Publish: number of acknowledgements the client sent with the request (`c.pendingAcks`) -/
+  pendingAcks : Nat
   deriving Repr, DecidableEq
 
 def Shape.nRes (s : Shape) : Nat := s.results.length
@@ -115,21 +121,26 @@ def nodeAttr (s : Shape) : Option Val :=
   match s.results with
   -- if len(res.Results) == 0 { return nil, ua.StatusBadUnexpectedError }
   | [] => none
+  -- Client.Read's handler: `if eo, ok := val.(*ua.ExtensionObject); ok && eo.Value == nil { dv.Status = BadDataTypeIDUnknown }`
+  -- (comma-ok: an array of extension objects is not touched)
   -- value := res.Results[0].Value; if res.Results[0].Status != ua.StatusOK { return value, status }
-  | st :: _ => if st then some (decodedVal s.val) else none
+  | st :: _ =>
+    let v := decodedVal s.val
+    if st && !(v.tid == .extobjNoBody && !v.isArray) then some v else none
 
-/-- `v.Value().(T)` for a scalar Go type T: panics unless the dynamic type is T
-    (a Null variant holds a nil interface, an array holds a slice) -/
+/-- `x, ok := v.Value().(T); if !ok { return …, ua.StatusBadTypeMismatch }` for a
+    scalar Go type T: an error unless the dynamic type is T (a Null variant
+    holds a nil interface, an array holds a slice) -/
 def assertScalar (want : Tid) (v : Val) : Outcome :=
-  if v.isArray then .panic
-  else if v.tid == want then .value else .panic
+  if v.isArray then .error
+  else if v.tid == want then .value else .error
 
 /-- `ua.NodeClass(v.Int())` -/
 def variantInt (v : Val) : Outcome :=
-  -- if m.ArrayLength() > 0 { return 0 }
-  if v.isArray && v.arrLen > 0 then .value
+  -- if m.Has(VariantArrayValues) { return 0 }
+  if v.isArray then .value
   -- switch m.Type() { case TypeIDSByte: int64(m.value.(int8)) … case TypeIDInt32: int64(m.value.(int32)) … }
-  else if v.isArray && (v.tid == .int32 || v.tid == .sbyte) then .panic   -- the value is an empty slice
+  -- (a scalar of that type id holds a value of that Go type)
   else .value
 
 def getter (s : Shape) (f : Val → Outcome) : Outcome :=
@@ -147,15 +158,15 @@ def browseLoop : List (Kind × Nat) → Outcome
   | (k, n) :: rest =>
     -- resp, err := n.c.BrowseNext(ctx, req); if err != nil { return nil, err }
     if !sendOk k then .error
-    -- results = resp.Results; refs = append(refs, results[0].References...)
-    else if n = 0 then .panic
+    -- results = resp.Results; if len(results) == 0 { return nil, ua.StatusBadUnexpectedError }
+    else if n = 0 then .error
     else browseLoop rest
 
 def references (s : Shape) : Outcome :=
   -- resp, err := n.c.Browse(ctx, req); if err != nil { return nil, err }
   if !sendOk s.kind then .error
-  -- refs := results[0].References
-  else if s.nRes = 0 then .panic
+  -- if len(results) == 0 { return nil, ua.StatusBadUnexpectedError }; refs := results[0].References
+  else if s.nRes = 0 then .error
   else browseLoop s.chain
 
 /-! ### subscriptions -/
@@ -163,9 +174,9 @@ def references (s : Shape) : Outcome :=
 /-- `Subscription.delete` -/
 def subDelete (s : Shape) : Outcome :=
   if !sendOk s.kind then .error else
-  -- case res.Results[0] == ua.StatusOK
+  -- case len(res.Results) == 0: return ua.StatusBadUnexpectedError; case res.Results[0] == ua.StatusOK
   match s.results with
-  | [] => .panic
+  | [] => .error
   | true :: _ => .value
   | false :: _ => .error
 
@@ -178,6 +189,8 @@ def indexLoop (n : Nat) : (todo i : Nat) → Bool
 /-- `Subscription.Monitor` -/
 def subMonitor (s : Shape) : Outcome :=
   if !sendOk s.kind then .error
+  -- if len(res.Results) != len(items) { return nil, ua.StatusBadUnexpectedError }
+  else if s.nRes != s.nReq then .error
   else if indexLoop s.nRes s.nReq 0 then .panic else .value
 
 /-- `for i, res := range res.Results { if res.StatusCode != OK { continue }; id := req.ItemsToModify[i]… }` -/
@@ -191,6 +204,8 @@ def subModifyItems (s : Shape) : Outcome :=
   -- unknown monitored item id: return nil, err (before anything is sent)
   if !s.idsKnown then .error
   else if !sendOk s.kind then .error
+  -- if len(res.Results) != len(items) { return nil, ua.StatusBadUnexpectedError }
+  else if s.nRes != s.nReq then .error
   else if modifyLoop s.nReq s.results 0 then .panic else .value
 
 /-- `Subscription.recreate_monitoredItems` as the monitor loop sees it (its
@@ -198,6 +213,8 @@ def subModifyItems (s : Shape) : Outcome :=
 def recreateItems (s : Shape) : Outcome :=
   -- err := s.c.Send(...); if err != nil { return err }
   if !sendOk s.kind then .value
+  -- if len(res.Results) != len(items) { return ua.StatusBadUnexpectedError }
+  else if s.nRes != s.nReq then .value
   -- for _, result := range res.Results { if status != OK { return status } }
   else if s.results.any (· == false) then .value
   -- for i, item := range items { s.items[res.Results[i].MonitoredItemID] = … }
@@ -209,6 +226,8 @@ def recreateItems (s : Shape) : Outcome :=
 def transferOnReconnect (s : Shape) : Outcome :=
   -- case err != nil: recreate all subscriptions
   if !sendOk s.kind then .value
+  -- case len(res.Results) != len(subIDs): recreate all subscriptions
+  else if s.nRes != s.nReq then .value
   else if indexLoop s.nReq s.nRes 0 then .panic else .value
 
 /-- `Client.Subscribe` -/
@@ -242,7 +261,17 @@ def publishDelivered (s : Shape) : List Bool :=
 /-- an error notification is sent from a goroutine (`err != nil && res != nil`) -/
 def publishAsyncError (s : Shape) : Bool := s.kind == .badStatus
 
-def publish (_s : Shape) : Outcome := .value     -- every branch of publish() is guarded
+/-- `handleAcks_NeedsSubMuxLock(res)`: `if len(c.pendingAcks) != len(res) { c.pendingAcks = [] }`
+    and then `for i, ack := range c.pendingAcks { err := res[i] … }` -/
+def handleAcks (pending nRes : Nat) : Outcome :=
+  let pending' := if pending != nRes then 0 else pending
+  if indexLoop nRes pending' 0 then .panic else .value
+
+/-- one round of `publish()`: only a Good PublishResponse reaches `handleAcks`; every other branch is guarded -/
+def publish (s : Shape) : Outcome :=
+  match s.kind with
+  | .ok => handleAcks s.pendingAcks s.nRes
+  | _ => .value
 
 /-! ### the operations -/
 
@@ -271,39 +300,6 @@ def outcome : Op → Shape → Outcome
   | .transferOnReconnect, s => transferOnReconnect s
   | .publish, s => publish s
 
-/-! ### finding signatures: narrow decidable predicates on (operation, shape) -/
-
-def valFrom (s : Shape) : Option Val := nodeAttr s
-
-def sigOf (op : Op) (s : Shape) : Option String :=
-  match op with
-  | .subCancel => if sendOk s.kind && s.nRes = 0 then some "C21.delete-empty-results" else none
-  | .subMonitor => if sendOk s.kind && s.nRes < s.nReq then some "C21.monitor-fewer-results" else none
-  | .subModifyItems =>
-    if s.idsKnown && sendOk s.kind && (s.results.drop s.nReq).any (· == true) then some "C21.modify-more-results" else none
-  | .recreateItems =>
-    if sendOk s.kind && s.results.all (· == true) && s.nRes < s.nReq then some "C21.recreate-fewer-results" else none
-  | .transferOnReconnect => if sendOk s.kind && s.nReq < s.nRes then some "C21.transfer-more-results" else none
-  | .references =>
-    if sendOk s.kind && s.nRes = 0 then some "C21.browse-empty-results"
-    else if sendOk s.kind && browseLoop s.chain = .panic then some "C21.browsenext-empty-results" else none
-  | .nodeClass =>
-    match valFrom s with
-    | some v => if v.isArray && v.arrLen = 0 && (v.tid == .int32 || v.tid == .sbyte) then some "C21.nodeclass-empty-int-array"
-                else none
-    | none => none
-  | .browseName => typedSig s .qname "C21.browsename-type-assertion"
-  | .description => typedSig s .ltext "C21.description-type-assertion"
-  | .displayName => typedSig s .ltext "C21.displayname-type-assertion"
-  | .accessLevel => typedSig s .byte "C21.accesslevel-type-assertion"
-  | .userAccessLevel => typedSig s .byte "C21.useraccesslevel-type-assertion"
-  | _ => none
-where
-  typedSig (s : Shape) (want : Tid) (name : String) : Option String :=
-    match valFrom s with
-    | some v => if v.isArray || v.tid != want then some name else none
-    | none => none
-
 /-! ### the audited site table -/
 
 inductive Audit where
@@ -318,10 +314,10 @@ def auditedSites : List (Site × Audit) := [
   (⟨"client.go", "Client.monitor", "index", "Results[_]"⟩, .safe "i ranges over res.Results"),
   (⟨"client.go", "Client.monitor", "index", "availableSeqs[_]"⟩, .safe "map"),
   (⟨"client.go", "Client.monitor", "index", "availableSeqs[_]"⟩, .safe "map"),
-  (⟨"client.go", "Client.monitor", "index", "subIDs[_]"⟩, .panics .transferOnReconnect),
-  (⟨"client.go", "Client.monitor", "index", "subIDs[_]"⟩, .panics .transferOnReconnect),
-  (⟨"client.go", "Client.monitor", "index", "subIDs[_]"⟩, .panics .transferOnReconnect),
-  (⟨"client.go", "Client.monitor", "index", "subIDs[_]"⟩, .panics .transferOnReconnect),
+  (⟨"client.go", "Client.monitor", "index", "subIDs[_]"⟩, .safe "len(res.Results) != len(subIDs) is handled before the loop"),
+  (⟨"client.go", "Client.monitor", "index", "subIDs[_]"⟩, .safe "len(res.Results) != len(subIDs) is handled before the loop"),
+  (⟨"client.go", "Client.monitor", "index", "subIDs[_]"⟩, .safe "len(res.Results) != len(subIDs) is handled before the loop"),
+  (⟨"client.go", "Client.monitor", "index", "subIDs[_]"⟩, .safe "len(res.Results) != len(subIDs) is handled before the loop"),
   (⟨"client.go", "Client.publishTimeout", "assert", "Load().(time.Duration)"⟩, .safe "only time.Duration is ever stored"),
   (⟨"client.go", "SelectEndpoint", "index", "endpoints[_]"⟩, .safe "len(endpoints) == 0 returns before"),
   (⟨"client.go", "bySecurityLevel.Less", "index", "a[_]"⟩, .safe "sort.Interface contract"),
@@ -353,13 +349,9 @@ def auditedSites : List (Site × Audit) := [
   (⟨"monitor/subscription.go", "Subscription.RemoveMonitorItems", "index", "itemLookup[_]"⟩, .safe "map"),
   (⟨"monitor/subscription.go", "Subscription.pump", "index", "handles[_]"⟩, .safe "map"),
   (⟨"monitor/subscription.go", "parseNodeSlice", "index", "nodeIDs[_]"⟩, .safe "nodeIDs has len(nodes), request side"),
-  (⟨"node.go", "Node.AccessLevel", "assert", "Value().(uint8)"⟩, .panics .accessLevel),
   (⟨"node.go", "Node.Attribute", "index", "Results[_]"⟩, .safe "len(res.Results) == 0 returns before"),
   (⟨"node.go", "Node.Attribute", "index", "Results[_]"⟩, .safe "len(res.Results) == 0 returns before"),
   (⟨"node.go", "Node.Attribute", "index", "Results[_]"⟩, .safe "len(res.Results) == 0 returns before"),
-  (⟨"node.go", "Node.BrowseName", "assert", "Value().(*ua.QualifiedName)"⟩, .panics .browseName),
-  (⟨"node.go", "Node.Description", "assert", "Value().(*ua.LocalizedText)"⟩, .panics .description),
-  (⟨"node.go", "Node.DisplayName", "assert", "Value().(*ua.LocalizedText)"⟩, .panics .displayName),
   (⟨"node.go", "Node.TranslateBrowsePathsToNodeIDs", "index", "BrowsePaths[_]"⟩, .safe "request literal with one element"),
   (⟨"node.go", "Node.TranslateBrowsePathsToNodeIDs", "index", "BrowsePaths[_]"⟩, .safe "request literal with one element"),
   (⟨"node.go", "Node.TranslateBrowsePathsToNodeIDs", "index", "Results[_]"⟩, .safe "len(resp.Results) == 0 returns before"),
@@ -367,22 +359,21 @@ def auditedSites : List (Site × Audit) := [
   (⟨"node.go", "Node.TranslateBrowsePathsToNodeIDs", "index", "Results[_]"⟩, .safe "len(resp.Results) == 0 returns before"),
   (⟨"node.go", "Node.TranslateBrowsePathsToNodeIDs", "index", "Results[_]"⟩, .safe "len(resp.Results) == 0 returns before"),
   (⟨"node.go", "Node.TranslateBrowsePathsToNodeIDs", "index", "Targets[_]"⟩, .safe "len(Targets) == 0 returns before"),
-  (⟨"node.go", "Node.UserAccessLevel", "assert", "Value().(uint8)"⟩, .panics .userAccessLevel),
-  (⟨"node.go", "Node.browseNext", "index", "results[_]"⟩, .panics .references),
-  (⟨"node.go", "Node.browseNext", "index", "results[_]"⟩, .panics .references),
-  (⟨"node.go", "Node.browseNext", "index", "results[_]"⟩, .panics .references),
-  (⟨"node.go", "Node.browseNext", "index", "results[_]"⟩, .panics .references),
-  (⟨"subscription.go", "Subscription.ModifyMonitoredItems", "index", "ItemsToModify[_]"⟩, .panics .subModifyItems),
-  (⟨"subscription.go", "Subscription.ModifyMonitoredItems", "index", "ItemsToModify[_]"⟩, .panics .subModifyItems),
+  (⟨"node.go", "Node.browseNext", "index", "results[_]"⟩, .safe "len(results) == 0 returns before"),
+  (⟨"node.go", "Node.browseNext", "index", "results[_]"⟩, .safe "len(results) == 0 returns before"),
+  (⟨"node.go", "Node.browseNext", "index", "results[_]"⟩, .safe "len(results) == 0 returns before"),
+  (⟨"node.go", "Node.browseNext", "index", "results[_]"⟩, .safe "len(results) == 0 returns before"),
+  (⟨"subscription.go", "Subscription.ModifyMonitoredItems", "index", "ItemsToModify[_]"⟩, .safe "len(res.Results) != len(items) returns before"),
+  (⟨"subscription.go", "Subscription.ModifyMonitoredItems", "index", "ItemsToModify[_]"⟩, .safe "len(res.Results) != len(items) returns before"),
   (⟨"subscription.go", "Subscription.ModifyMonitoredItems", "index", "items[_]"⟩, .safe "map"),
   (⟨"subscription.go", "Subscription.ModifyMonitoredItems", "index", "items[_]"⟩, .safe "map; the entry exists for every i < len(items) (checked before sending)"),
-  (⟨"subscription.go", "Subscription.Monitor", "index", "Results[_]"⟩, .panics .subMonitor),
+  (⟨"subscription.go", "Subscription.Monitor", "index", "Results[_]"⟩, .safe "len(res.Results) != len(items) returns before"),
   (⟨"subscription.go", "Subscription.Monitor", "index", "items[_]"⟩, .safe "map"),
   (⟨"subscription.go", "Subscription.SetMonitoringMode", "index", "items[_]"⟩, .safe "map"),
-  (⟨"subscription.go", "Subscription.delete", "index", "Results[_]"⟩, .panics .subCancel),
-  (⟨"subscription.go", "Subscription.delete", "index", "Results[_]"⟩, .panics .subCancel),
-  (⟨"subscription.go", "Subscription.recreate_monitoredItems", "index", "Results[_]"⟩, .panics .recreateItems),
-  (⟨"subscription.go", "Subscription.recreate_monitoredItems", "index", "Results[_]"⟩, .panics .recreateItems),
+  (⟨"subscription.go", "Subscription.delete", "index", "Results[_]"⟩, .safe "len(res.Results) == 0 returns before"),
+  (⟨"subscription.go", "Subscription.delete", "index", "Results[_]"⟩, .safe "len(res.Results) == 0 returns before"),
+  (⟨"subscription.go", "Subscription.recreate_monitoredItems", "index", "Results[_]"⟩, .safe "len(res.Results) != len(items) returns before"),
+  (⟨"subscription.go", "Subscription.recreate_monitoredItems", "index", "Results[_]"⟩, .safe "len(res.Results) != len(items) returns before"),
   (⟨"subscription.go", "Subscription.recreate_monitoredItems", "index", "itemsByTimestamps[_]"⟩, .safe "map"),
   (⟨"subscription.go", "Subscription.recreate_monitoredItems", "index", "itemsByTimestamps[_]"⟩, .safe "map"),
   (⟨"subscription.go", "Subscription.recreate_monitoredItems", "index", "items[_]"⟩, .safe "map")
@@ -405,27 +396,28 @@ def conforming (op : Op) (s : Shape) : Prop :=
 /-- a good default shape -/
 def Shape.good : Shape :=
   { kind := .ok, nReq := 1, results := [true], val := ⟨true, .int32, false, 0⟩, chain := [],
-    subIdZero := false, subIdDup := false, idsKnown := true, subKnown := true, notifs := [] }
+    subIdZero := false, subIdDup := false, idsKnown := true, subKnown := true, notifs := [], pendingAcks := 0 }
 
-/-- for every operation that `auditedSites` marks `panics`, a shape on which it does -/
-def witness : Op → Shape
-  | .transferOnReconnect => { Shape.good with nReq := 0, results := [true] }
-  | .accessLevel | .userAccessLevel | .browseName | .description | .displayName =>
-      { Shape.good with val := ⟨true, .int32, false, 0⟩ }
-  | .references => { Shape.good with results := [] }
-  | .subModifyItems => { Shape.good with nReq := 1, results := [true, true] }
-  | .subMonitor => { Shape.good with nReq := 2, results := [true] }
-  | .subCancel => { Shape.good with results := [] }
-  | .recreateItems => { Shape.good with nReq := 2, results := [true] }
-  | .nodeClass => { Shape.good with val := ⟨true, .int32, true, 0⟩ }
-  | _ => Shape.good
-
-/-- Bool form of "every `panics op` entry of the audit has a panicking witness" -/
-def auditWitnessed : Bool :=
+/-- no site of the audit is marked as panicking any more -/
+def auditAllSafe : Bool :=
   auditedSites.all fun p =>
     match p.2 with
-    | .panics op => outcome op (witness op) == .panic
     | .safe _ => true
+    | .panics _ => false
+
+/-- the shapes that made the unrepaired code panic (round 1 findings), with the
+    operation they belong to -/
+def oldWitnesses : List (Op × Shape) := [
+  (.subCancel, { Shape.good with results := [] }),
+  (.subMonitor, { Shape.good with nReq := 2, results := [true] }),
+  (.subModifyItems, { Shape.good with nReq := 1, results := [true, true] }),
+  (.recreateItems, { Shape.good with nReq := 2, results := [true] }),
+  (.transferOnReconnect, { Shape.good with nReq := 0, results := [true] }),
+  (.references, { Shape.good with results := [] }),
+  (.references, { Shape.good with chain := [(.ok, 0)] }),
+  (.browseName, Shape.good), (.description, Shape.good), (.displayName, Shape.good),
+  (.accessLevel, Shape.good), (.userAccessLevel, Shape.good),
+  (.nodeClass, { Shape.good with val := ⟨true, .int32, true, 0⟩ })]
 
 /-! ### loop lemmas -/
 
@@ -455,6 +447,22 @@ theorem browseLoop_ne_panic (chain : List (Kind × Nat)) (h : ∀ kn ∈ chain, 
     by_cases hk : sendOk k = true
     · simp only [hk, Bool.not_true, Bool.false_eq_true, if_false, hn]
       exact ih (fun x hx => h x (by simp [hx]))
+    · simp [hk]
+
+theorem handleAcks_ne_panic (pending nRes : Nat) : handleAcks pending nRes ≠ .panic := by
+  unfold handleAcks
+  by_cases h : pending = nRes <;> simp [h, indexLoop_zero_eq]
+
+theorem browseLoop_ne_panic' (chain : List (Kind × Nat)) : browseLoop chain ≠ .panic := by
+  induction chain with
+  | nil => simp [browseLoop]
+  | cons kn rest ih =>
+    rcases kn with ⟨k, n⟩
+    unfold browseLoop
+    by_cases hk : sendOk k = true
+    · by_cases hn : n = 0
+      · simp [hk, hn]
+      · simp only [hk, Bool.not_true, Bool.false_eq_true, if_false, hn]; exact ih
     · simp [hk]
 
 theorem modifyLoop_eq (nReq : Nat) (rs : List Bool) (i : Nat) :
